@@ -55,10 +55,22 @@ def setup_corpus(root, n, rng):
                    "frame_length_ms": 20, "frame_shift_ms": 10}, f)
 
 
+# file naming of the output directory (--file-prefix / --file-suffix); the manifest holds utterance ids, not names
+NAMING = {"prefix": "", "suffix": ".pt"}
+
+
+def fname(k):
+    return NAMING["prefix"] + name(k) + NAMING["suffix"]
+
+
 def run_tool(root, outdir, workers, crash=None, trace=None, seed=7, manifest=True):
     """Runs the real command in a forked child.  Returns the wait status."""
     args = [os.path.join(root, "map"), os.path.join(root, "comp.json"), outdir, "--seed=%d" % seed,
             "--preprocess=" + os.path.join(root, "pre.json"), "--num-workers=%d" % workers]
+    if NAMING["prefix"]:
+        args.append("--file-prefix=" + NAMING["prefix"])
+    if NAMING["suffix"] != ".pt":
+        args.append("--file-suffix=" + NAMING["suffix"])
     if manifest:
         args.append("--manifest=" + outdir + ".manifest")
     sys.stdout.flush()
@@ -114,7 +126,7 @@ def observe(outdir, n, ref):
     files = []
     import torch
     for k in range(1, n + 1):
-        p = os.path.join(outdir, name(k) + ".pt")
+        p = os.path.join(outdir, fname(k))
         if not os.path.exists(p):
             files.append(-2)
             continue
@@ -145,6 +157,14 @@ def uid(u):
 
 def experiment(run, root, n, ref, schedule, workers, tid):
     """schedule: list of crash specs (strings) applied to successive runs, then a clean run."""
+    NAMING.update(prefix=("", "feat_", "")[tid % 3], suffix=(".pt", ".pt", ".feat.pt")[tid % 3])
+    try:
+        return _experiment(run, root, n, ref, schedule, workers, tid)
+    finally:
+        NAMING.update(prefix="", suffix=".pt")
+
+
+def _experiment(run, root, n, ref, schedule, workers, tid):
     outdir = tempfile.mkdtemp(prefix="exp_", dir=root)
     shutil.rmtree(outdir)
     events = []
@@ -154,6 +174,10 @@ def experiment(run, root, n, ref, schedule, workers, tid):
         pid, st = run_tool(root, outdir, workers, crash=crash, trace=trace)
         evs = main_events(trace, pid)
         man, files = observe(outdir, n, ref)
+        if any(u not in NAMES[:n] for u in man):
+            run.violation({"kind": "manifest_line_is_not_an_utterance_id", "manifest": man, "naming": dict(NAMING), "schedule": schedule})
+            ok = False
+            man = [u for u in man if u in NAMES[:n]]
         crashed = not (os.WIFEXITED(st) and os.WEXITSTATUS(st) == 0)
         run.evaluations += 1
         started = [e for e in evs if e["event"] == "start"]
@@ -182,6 +206,7 @@ def experiment(run, root, n, ref, schedule, workers, tid):
                 ok = False
         if len(set(man)) != len(man):
             run.violation({"kind": "manifest_duplicate_line", "manifest": man, "schedule": schedule})
+
         if crashed:
             must = saved_this_run[:-1] if saved_this_run else []
             missing = [u for u in must if u not in man]
@@ -207,7 +232,7 @@ def experiment(run, root, n, ref, schedule, workers, tid):
     shutil.rmtree(outdir, ignore_errors=True)
     if os.path.exists(outdir + ".manifest"):
         os.remove(outdir + ".manifest")
-    return {"tid": tid, "schedule": schedule, "workers": workers, "events": events}
+    return {"tid": tid, "schedule": schedule, "workers": workers, "events": events, "naming": dict(NAMING)}
 
 
 def run(tier, seed):
